@@ -260,28 +260,123 @@ open EngineModel.Db EngineModel.Db.V2 EngineModel.Api.GuardedV2
 
 def idsOf {α} (r : Res (List (Chain.Row α))) : Res String := r.bind fun l => .ok (showIds (l.map (·.id)))
 
+/-- `Drv.CratesV2.doOp` through the guarded step `stepG` (every dereference and both unbounded
+evaluations of the C++ explicit; the guards are the regenerated `Gen.C15Guards`). -/
+def doOpG (st : Drv.CratesV2.St) (op : Op) (bindCrate bindTrack : Option String := none) : Drv.CratesV2.St × String :=
+  let (d', r) := stepG st.db op
+  let st' := { st with db := d' }
+  let st' := match r, bindCrate with
+    | .ok (some i), some v => { st' with crates := Drv.CratesV2.bind st'.crates v i }
+    | _, _ => st'
+  let st' := match r, bindTrack with
+    | .ok (some i), some v => { st' with tracks := Drv.CratesV2.bind st'.tracks v i }
+    | _, _ => st'
+  (st', Drv.CratesV2.renderOut r)
+
+def okOnly (p : Drv.CratesV2.St × String) : Drv.CratesV2.St × String :=
+  (p.1, if p.2.startsWith "ok" then "ok" else p.2)
+
 def step (st : Drv.CratesV2.St) (cmd : String) (args : List String) : Drv.CratesV2.St × String :=
   let cr (v : String) : Option Int := (st.crates.find? (·.1 == v)).map (·.2)
   let tr (v : String) : Option Int := (st.tracks.find? (·.1 == v)).map (·.2)
   let d := st.db
   match cmd, args with
+  -- the mutating operations: same syntax as mode `cratesv2`, executed by `stepG`
+  | "mkroot", [v, n] =>
+    match parseHexBytes n with
+    | some n => doOpG st (.createRoot n) (some v)
+    | none => (st, "bad-op args")
+  | "mkroot_after", [v, n, a] =>
+    match parseHexBytes n, cr a with
+    | some n, some a => doOpG st (.createRootAfter n a) (some v)
+    | _, _ => (st, "bad-op args")
+  | "mksub", [v, p, n] =>
+    match parseHexBytes n, cr p with
+    | some n, some p => doOpG st (.createSub p n) (some v)
+    | _, _ => (st, "bad-op args")
+  | "mksub_after", [v, p, n, a] =>
+    match parseHexBytes n, cr p, cr a with
+    | some n, some p, some a => doOpG st (.createSubAfter p n a) (some v)
+    | _, _, _ => (st, "bad-op args")
+  | "rename", [v, n] =>
+    match parseHexBytes n, cr v with
+    | some n, some c => doOpG st (.rename c n)
+    | _, _ => (st, "bad-op args")
+  | "setparent", [v, p] =>
+    match cr v, (if p == "-" then some none else (cr p).map some) with
+    | some c, some p => doOpG st (.setParent c p)
+    | _, _ => (st, "bad-op args")
+  | "rmcrate", [v] =>
+    match cr v with
+    | some c => doOpG st (.removeCrate c)
+    | none => (st, "bad-op args")
+  | "v2.mktrack", [v, _] => doOpG st .createTrack none (some v)
+  | "rmtrack", [v] =>
+    match tr v with
+    | some t => doOpG st (.removeTrack t)
+    | none => (st, "bad-op args")
+  | "addtrack", [c, t] =>
+    match cr c, tr t with
+    | some c, some t => okOnly (doOpG st (.addTrack c t))
+    | _, _ => (st, "bad-op args")
+  | "addtrackid", [c, t] =>
+    match cr c, t.toInt? with
+    | some c, some t => okOnly (doOpG st (.addTrack c t))
+    | _, _ => (st, "bad-op args")
+  | "rmtrackfrom", [c, t] =>
+    match cr c, tr t with
+    | some c, some t => doOpG st (.removeTrackFrom c t)
+    | _, _ => (st, "bad-op args")
+  | "cleartracks", [c] =>
+    match cr c with
+    | some c => doOpG st (.clearTracks c)
+    | none => (st, "bad-op args")
+  | "pe.add", [l, t, u, f] =>
+    match l.toInt?, t.toInt?, u.toInt? with
+    | some l, some t, some u => doOpG st (.peAddBack l t u (f == "1"))
+    | _, _, _ => (st, "bad-op args")
+  | "pe.remove", [l, e] =>
+    match l.toInt?, e.toInt? with
+    | some l, some e => doOpG st (.peRemove l e)
+    | _, _ => (st, "bad-op args")
+  | "pe.clear", [l] =>
+    match l.toInt? with
+    | some l => doOpG st (.peClear l)
+    | none => (st, "bad-op args")
+  -- queries over the guarded walks / dereferences
   | "crate.q", [v, "copy"] =>
     match cr v with
     | some c => (st, s!"ok {c}")
     | none => (st, "bad-op crate var")
   | "crate.q", [v, "children"] =>
     match cr v with
-    | some c => (st, resText id (idsOf (walkBackG d.pl c)))
+    | some c => (st, resText id (idsOf (sortIdsG d.pl c)))
     | none => (st, "bad-op crate var")
   | "crate.q", [v, "tracks"] =>
     match cr v with
-    | some c => (st, resText id ((walkBackG d.pe c).bind fun l => .ok (showIds (l.map (·.val.track)))))
+    | some c => (st, resText id ((getForListG d.pe c).bind fun l => .ok (showIds (l.map (·.val.track)))))
     | none => (st, "bad-op crate var")
   | "crate.q", [v, "descendants"] =>
     match cr v with
     | some c => (st, resText id ((descendantIdsG d.pl c).bind fun l => .ok (showIds (sortInts l))))
     | none => (st, "bad-op crate var")
-  | "db.q", ["root_crates"] => (st, resText id (idsOf (walkBackG d.pl 0)))
+  | "crate.q", [v, "name"] =>
+    match cr v with
+    | some c => (st, resText hexBytes (qNameG d c))
+    | none => (st, "bad-op crate var")
+  | "crate.q", [v, "parent"] =>
+    match cr v with
+    | some c => (st, resText Drv.CratesV2.showOpt (qParentG d c))
+    | none => (st, "bad-op crate var")
+  | "crate.q", [v, "sub_by_name", n] =>
+    match cr v, parseHexBytes n with
+    | some c, some n => (st, resText Drv.CratesV2.showOpt (qByParentNameG d c n))
+    | _, _ => (st, "bad-op args")
+  | "db.q", ["root_crates"] => (st, resText id (idsOf (sortIdsG d.pl 0)))
+  | "db.q", ["root_by_name", n] =>
+    match parseHexBytes n with
+    | some n => (st, resText Drv.CratesV2.showOpt (qByParentNameG d 0 n))
+    | none => (st, "bad-op args")
   | "get", [v, q] =>
     match tr v with
     | some t =>
